@@ -90,6 +90,7 @@ type Bounds struct {
 	MaxExec     int64 // cap on executions (0 = none)
 	EarlyTimers bool  // offer firing the earliest timer while plain events are enabled (costs 1 preemption)
 	Tickers     bool  // offer firing tickers (costs 1 fault)
+	TickerMatch string // only tickers whose label contains this
 	Deadline    time.Time
 	// PerActorFIFO: when set, only the oldest pending event of each actor is offered
 	// (events of one actor are delivered in canonical order).
@@ -203,7 +204,7 @@ func (x *Explorer) choices(last int) []Choice {
 	// timers
 	for _, t := range tms {
 		if t.Period > 0 {
-			if x.B.Tickers {
+			if x.B.Tickers && (x.B.TickerMatch == "" || strings.Contains(t.Label, x.B.TickerMatch)) {
 				devs = append(devs, Choice{Key: mkKey("tick:" + t.Label), Actor: -1, FCost: 1, timer: t})
 			}
 			continue
@@ -270,7 +271,23 @@ func (x *Explorer) runOne(prefix []string) *Exec {
 				}
 				break
 			}
-		} else if x.visited != nil {
+		} else {
+			// default continuation: the first enabled choice that still fits the budgets
+			idx = -1
+			for k, c := range cs {
+				if p+c.PCost <= x.B.P && f+c.FCost <= x.B.F {
+					idx = k
+					break
+				}
+			}
+			if idx < 0 {
+				if Running() > 0 {
+					ex.Deadlock = true
+				}
+				break
+			}
+		}
+		if i >= len(prefix) && x.visited != nil {
 			if sk := x.Sc.StateKey(); sk != "" {
 				var sb strings.Builder
 				sb.WriteString(sk)
